@@ -47,7 +47,7 @@ def run_case(case):
     import gen
     rng = random.Random(case['wseed'])
     prefix = 'vwd%d' % case['idx']
-    files = trees.gen_tree(rng, prefix)
+    files = trees.gen_tree(rng, prefix, p_link=0.12)
     # never both X.py and X/ in one directory
     for f in list(files):
         if f.endswith('.py'):
@@ -252,7 +252,17 @@ def run_case(case):
                   file=f, count=ran.count(f))
         # order
         got_order = [f for f in cand_imports if f in set(want_files)]
-        if len(want_files) >= 2 and not optional:
+        via_link = [f for f in want_files
+                    if any(f.startswith(l + '/') for l in files.links)]
+        C('selected_through_symlinks', len(via_link))
+        C('decoys_behind_symlinks', sum(
+            1 for f in decoys
+            if any(f.startswith(l + '/') for l in files.links)))
+        # (a symbolically linked sub-directory is walked right after the
+        # directory that holds it, before the real sub-directories: with
+        # links among the selected files only the independence from the
+        # enumeration order is checked, below)
+        if len(want_files) >= 2 and not optional and not via_link:
             C('order_checked')
             if got_order != want_files and got_order != sorted(want_files):
                 V('discovery-order-not-sorted', 'discovery-order',
